@@ -1,6 +1,7 @@
 package slog
 
 import (
+	"time"
 	"context"
 	"errors"
 
@@ -131,3 +132,6 @@ func vSpecEnabled(L, r Level, debug bool, regs []vReg) bool {
 }
 
 var vCtx = context.Background()
+
+// vTime0 is a fixed explicit timestamp for WriteThru probes.
+func vTime0() time.Time { return time.Unix(1700000000, 123456789).UTC() }
